@@ -414,8 +414,8 @@ var c09Universes = []c09Universe{
 	{"float", []string{"a", "a1", "b", "b1"}, []string{"0.5", "0.75", "2.5", "-0.5"}, "float"},
 	// integers beyond 2^53: neighbours share one float64 image
 	{"bigint", []string{"a", "a1", "b", "b1"}, []string{"9007199254740993", "9007199254740992", "9007199254740994", "-9007199254740993"}, "int"},
-	// floats that agree in their first six decimals
-	{"nearfloat", []string{"a", "a1", "b", "b1"}, []string{"0.12345671", "0.12345672", "1.5", "-0.5"}, "float"},
+	// floats that agree in their first six decimals, and two that share one float32 image
+	{"nearfloat", []string{"a", "a1", "b", "b1"}, []string{"0.12345671", "0.12345672", "0.1", "0.10000000001"}, "float"},
 	// integers and floats side by side (only sum / avg / count of the raw values are defined on it)
 	// (3 / 3.5 and -3 / -3.5 share their integer parts: an extreme taken on truncated values is wrong)
 	{"mixed", []string{"a", "a1", "b", "b1"}, []string{"3", "3.5", "-3", "-3.5"}, "mixed"},
